@@ -114,3 +114,61 @@ def mapper_reuse(run: Run):
             m_ = shared.get_mapping()
             if m_.size() != k or [m_[j] for j in range(k)] != list(perm) or not (m_ == Mapping(list(perm))):
                 run.violation(f"using a mapper changed its mapping ({perm} became size {m_.size()})", {"perm": perm, "job": i}); break
+
+
+def restricted_set_check(run: Run):
+    """a builder / parser created with a restricted gate set refuses everything else, whatever other front ends in the process did"""
+    from opensquirrel import CircuitBuilder, Circuit
+    import opensquirrel.default_gates as dg
+    b0 = CircuitBuilder(2); b0.X90(0); b0.Y(1); b0.CZ(0, 1)          # the default set resolves these names first
+    Circuit.from_string("version 3.0\nqubit[2] q\nX90 q[0]\nY q[1]\n")
+    small = [dg.H, dg.CNOT]
+    for name, args in (("X90", (0,)), ("Y", (1,)), ("CZ", (0, 1))):
+        b = CircuitBuilder(2, gate_set=small, gate_aliases={}); b.H(0)
+        run.count({"restricted": name}, tag="restricted-set")
+        before = W.w_circuit(b.to_circuit())
+        try:
+            getattr(b, name)(*args)
+            run.violation(f"a builder whose gate set is [H, CNOT] accepted {name}", {"gate": name})
+        except Exception:
+            if W.diff(before, W.w_circuit(b.to_circuit()), 0.0): run.violation(f"a refused {name} changed the builder's circuit", {"gate": name})
+        txt = f"version 3.0\nqubit[2] q\n{name} " + ", ".join(f"q[{a}]" for a in args) + "\n"
+        try:
+            Circuit.from_string(txt, gate_set=small, gate_aliases={})
+            run.violation(f"a parser whose gate set is [H, CNOT] accepted {name}", {"text": txt})
+        except Exception:
+            pass
+    b = CircuitBuilder(2, gate_set=small, gate_aliases={}); b.H(1); b.CNOT(1, 0)
+    if W.diff(W.w_circuit(b.to_circuit())["stmts"], [W.w_stmt(dg.H(1)), W.w_stmt(dg.CNOT(1, 0))], 0.0):
+        run.violation("a builder with the gate set [H, CNOT] does not build H and CNOT", {})
+
+def decomposer_reuse(run: Run):
+    """one decomposer object used for several circuits, with an in-place relabelling in between: every result equals what a fresh
+    decomposer gives, and circuits decomposed earlier are not touched"""
+    from opensquirrel import Circuit
+    from opensquirrel.mapper import HardcodedMapper
+    from opensquirrel.mapper.mapping import Mapping
+    srcs = ["version 3.0\nqubit[3] q\nH q[0]\nCNOT q[0], q[2]\nRx(0.4) q[1]\nH q[0]\nCR(1.1) q[1], q[2]\n",
+            "version 3.0\nqubit[3] q\nH q[0]\nH q[1]\nY90 q[2]\nCNOT q[0], q[2]\nRx(0.4) q[1]\n",
+            "version 3.0\nqubit[3] q\nRx(0.4) q[1]\nH q[0]\nCNOT q[0], q[2]\nH q[0]\n"]
+    for dname in O.DECOMPOSERS:
+        d = O.os_decomposer(dname)
+        held = []
+        for i, src in enumerate(srcs * 2):
+            run.count({"decomposer-reuse": dname, "i": i}, tag="decomposer-reuse")
+            c = Circuit.from_string(src); cf = Circuit.from_string(src)
+            frozen = [W.w_circuit(x) for x in held]
+            try:
+                c.decompose(d)
+            except Exception as ex:
+                run.violation(f"a re-used {dname} decomposer raised {O.err_name(ex)} on its use number {i + 1}", {"decomposer": dname, "i": i}); break
+            cf.decompose(O.os_decomposer(dname))
+            if W.diff(W.w_circuit(c), W.w_circuit(cf), 0.0):
+                run.violation(f"a re-used {dname} decomposer gives another result than a fresh one (use number {i + 1})", {"decomposer": dname, "i": i}); break
+            if W.diff(frozen, [W.w_circuit(x) for x in held], 0.0):
+                run.violation(f"decomposing with a re-used {dname} decomposer modified a circuit decomposed earlier", {"decomposer": dname, "i": i}); break
+            c.map(HardcodedMapper(3, Mapping([1, 2, 0])))
+            held.append(c)
+            fr2 = [W.w_circuit(x) for x in held[:-1]]
+            if W.diff(frozen, fr2, 0.0):
+                run.violation(f"relabelling a circuit modified another circuit decomposed with the same {dname} decomposer object", {"decomposer": dname, "i": i}); break
